@@ -531,6 +531,21 @@ def f_cutoff(multi=0, src="x", v=1):
     }
 
 
+def f_detfinish(broken=1, slow=4, lead=0, cfg="c"):
+    """A step that finishes while it is detached: sub/plan.py declares the slow ./work.py and
+    (broken=1) fails after `lead` idle actions while work.py still runs. With broken=0 the
+    repaired plan re-creates work.py identically. The top plan alone consumes cfg.txt."""
+    root = [["static", "cfg.txt", "shared.txt", "sub/plan.py", "sub/work.py"],
+            ["amend", {"inp": ["cfg.txt"]}], ["read", "cfg.txt"],
+            ["plan", "./plan.py", {"workdir": "sub"}]]
+    sub = [["run", "./work.py", {"inp": ["../shared.txt"], "out": ["out.txt"]}]]
+    if broken:
+        sub += [["nop"]] * lead + [["exit", 1]]
+    work = [["write_partial", "out.txt"]] + [["nop"]] * slow + [["write", "out.txt", ["../shared.txt"]]]
+    return {"plan.py": script(root), "cfg.txt": cfg + "\n", "shared.txt": "shared\n",
+            "sub/plan.py": script(sub), "sub/work.py": script(work)}
+
+
 def f_latestatic(gap=1, cfg="c"):
     """The top plan consumes cfg.txt (amended), starts a sub-plan and only afterwards declares the
     static file late.txt, which a step of the sub-plan (./work.py) amends. An edit of cfg.txt
@@ -572,6 +587,7 @@ DOMAINS = {
     "f_nested": {"deep": (1, 0), "v": (1, 2), "p_need": ("OPTIONAL", "DEFAULT")},
     "f_dynout": {"target": ("dyn1", "dyn2"), "consumer": ("none", "dyn1", "dyn2"), "sub": (0, 1)},
     "f_hold": {"nesting": (2, 1), "v": (1, 2)},
+    "f_detfinish": {"broken": (1, 0), "lead": (0, 2)},
 }
 ENV_DOMAIN = {"f_env": {"VERIF_X": (None, "1", "2", "")}}
 
